@@ -310,7 +310,11 @@ def run(cx, rep):
     objs = [cn for cn in fam.classes if "properties" in fam.all_fields(cn) and "describeTypeExpr" in fam.classes[cn].methods]
     for cn in objs:
         fn = fam.classes[cn].methods["describeTypeExpr"]["function"]
-        calls = [n for n in walk(fn) if n["type"] == "CallExpression" and s(n["callee"]) == "describeObjectMember"]
+        # identifiers that stand for a PROPERTY NAME: whatever indexes the declared-properties record
+        pnames = {s(x["property"]["expression"]) for x in walk(fn) if x["type"] == "MemberExpression" and x["property"]["type"] == "Computed"
+                  and s(x["object"]) == "this.properties" and unparen(x["property"]["expression"]).get("type") == "Identifier"}
+        calls = [n for n in walk(fn) if n["type"] == "CallExpression" and s(n["callee"]) == "describeObjectMember"
+                 and len(n["arguments"]) > 1 and any(i_["type"] == "Identifier" and i_["value"] in pnames for i_ in walk(n["arguments"][1]["expression"]))]
         rep.floor("C15.3", "object member printers", len(calls), 1)
         for c in calls:
             key = c["arguments"][1]["expression"]
@@ -326,6 +330,8 @@ def run(cx, rep):
             rep.ob("C15.3", "%s/quoted-keys" % cn, quoted,
                    "%s.describeTypeExpr interpolates property names into the type text unquoted: a property such as \"a-b\" prints `a-b: string`, which is not valid TypeScript" % cn,
                    mod.loc(c), sample={"class": cn, "key_expr": ktxt})
+    rep.rule("C15.13", "a chain of members joined by | or & is parenthesised where it is built")
+    infix_parenthesised_rule(cx, rep, fam, mod, "C15.13")
     rep.rule("C15.5", "describeChildren yields every child validator that describe() descends into")
     describe_children_rule(cx, rep, fam, mod)
     # ---------------------------------------------------------------- C15.6
@@ -639,3 +645,68 @@ def template_placeholder_rule(cx, rep, rid):
                        "%s prints a template item of kind %s as %s between the backticks, not inside a `${..}` substitution: the printed template literal type contains it as TEXT (`%s` is one string), so describe() / the printed type compiles to a different validator" % (g, vname, " .. ".join(repr(p) for p in outer) or "nothing", "(\"A\" | \"B\")"),
                        "%s:%s" % (f.file, a.get("line", m.get("line"))), sample={"fn": g, "variant": vname, "literal_parts": outer})
     rep.floor(rid, "placeholder arms of the template printer", n, 3)
+
+
+def infix_parenthesised_rule(cx, rep, fam, mod, rid):
+    """`|` and `&` are infix operators with different precedence, and a printed type is pasted wherever the printer
+    of the surrounding type puts it - also in place of a REFERENCE that is printed as its target's text.  The only
+    place that knows a text is an infix chain is the place that builds it: every describeTypeExpr that joins member
+    texts with ` | ` or ` & ` returns the joined text wrapped in parentheses (deciding later by the member's class
+    misses references, optional wrappers ..: `A & U` with `type U = X | Y` referenced once printed `A & X | Y`)."""
+    n = 0
+    for cn, c in sorted(fam.classes.items()):
+        m = c.methods.get("describeTypeExpr")
+        if m is None or m["function"].get("body") is None:
+            continue
+        fn = tsast.flatten_fn(mod, cn, m["function"])
+        al = {}
+        for x in walk(fn):
+            if x["type"] == "VariableDeclarator" and x["id"].get("type") == "Identifier" and x.get("init") is not None:
+                al.setdefault(x["id"]["value"], x["init"])
+
+        def is_infix_join(e, d=0):
+            e = unparen(e)
+            if e.get("type") == "Identifier" and e["value"] in al and d < 4:
+                return is_infix_join(al[e["value"]], d + 1)
+            mc = method_call(e) if e.get("type") == "CallExpression" else None
+            if mc and mc[1] == "join" and mc[2] and unparen(mc[2][0]).get("type") == "StringLiteral":
+                v = unparen(mc[2][0])["value"].strip()
+                return v if v in ("|", "&") else None
+            return None
+        for r in walk(fn):
+            if r["type"] != "ReturnStatement" or r.get("argument") is None:
+                continue
+            a = unparen(r["argument"])
+            while a.get("type") == "Identifier" and a["value"] in al and is_infix_join(a) is None:
+                a = unparen(al[a["value"]])
+            op = is_infix_join(a)
+            wrapped = None
+            if op is not None:
+                wrapped = False           # the bare chain is returned
+            elif a.get("type") == "TemplateLiteral":
+                exprs = a.get("expressions", [])
+                ops = [is_infix_join(e_) for e_ in exprs]
+                if any(ops):
+                    op = next(o for o in ops if o)
+                    q = [q_.get("raw") or q_.get("cooked") or "" for q_ in a.get("quasis", [])]
+                    wrapped = len(exprs) == 1 and q and q[0].strip() == "(" and q[-1].strip() == ")"
+            elif a.get("type") == "BinaryExpression" and a["operator"] == "+":
+                parts = []
+                def flat(e_):
+                    e_ = unparen(e_)
+                    if e_.get("type") == "BinaryExpression" and e_["operator"] == "+":
+                        flat(e_["left"]); flat(e_["right"])
+                    else:
+                        parts.append(e_)
+                flat(a)
+                ops = [is_infix_join(e_) for e_ in parts]
+                if any(ops):
+                    op = next(o for o in ops if o)
+                    wrapped = len(parts) == 3 and parts[0].get("type") == "StringLiteral" and parts[0]["value"].strip() == "(" and parts[2].get("type") == "StringLiteral" and parts[2]["value"].strip() == ")"
+            if wrapped is None:
+                continue
+            n += 1
+            rep.ob(rid, "%s/%s-chain-parenthesised" % (cn, "union" if op == "|" else "intersection"), bool(wrapped),
+                   "%s.describeTypeExpr returns its members joined with ` %s ` without parentheses around the whole chain: pasted into a surrounding type (as a member of an intersection, or in place of a reference that is printed as its target) the operators regroup - `A & X | Y` is `(A & X) | Y` - and the description compiles to a different validator" % (cn, op),
+                   mod.loc(r), sample={"class": cn, "operator": op})
+    rep.floor(rid, "describeTypeExpr returns that join members with an infix operator", n, 4)
